@@ -22,13 +22,17 @@
 //        the const& overload passes T const&&) - only visitors that accept every value category are usable, which is
 //        what the check uses (value categories passed to f are not compared).
 #include <etl/expected.hpp>
+#include <etl/optional.hpp>
 #include <etl/utility.hpp>
+#include <etl/variant.hpp>
 
 #include "rc.hpp"
 #include "tracked.hpp"
 
 #include <limits>
+#include <optional>
 #include <utility>
+#include <variant>
 
 namespace {
 
@@ -464,10 +468,218 @@ struct Exp {
     }
 };
 
+// ================================================================== special-member matrix of the element type
+// Element types mixing {trivial, user-provided, deleted} copy / move constructor, copy / move assignment and
+// destructor.  Each user-provided member counts its calls and leaves a trace in the value (copies / moves / assigns carried
+// along).  Copy / move construction and copy / move assignment of variant<int,Z>, optional<Z> and expected<Z,Err> are run
+// for every (source holds Z?, destination holds Z?) pair - index-preserving and index-changing - and the resulting values,
+// the per-member call counts during the operation and the totals after destruction are compared with std::variant /
+// std::optional.  For expected<Z,Err> the oracle is std::variant<Z,Err>: for nothrow element types [expected.object.assign]
+// prescribes exactly its behaviour (same state: assign; other state: destroy, then construct).
+// Stateless: code = container kind, a = element type, b = (operation, source state, destination state).
+struct Counts {
+    int cc{0}, mc{0}, ca{0}, ma{0}, d{0}, live{0};
+    auto str() const -> std::string
+    {
+        return "cc" + std::to_string(cc) + " mc" + std::to_string(mc) + " ca" + std::to_string(ca) + " ma" + std::to_string(ma) + " d" + std::to_string(d) + " live" + std::to_string(live);
+    }
+    auto minus(Counts const& o) const -> Counts { return Counts{cc - o.cc, mc - o.mc, ca - o.ca, ma - o.ma, d - o.d, live - o.live}; }
+};
+template <int Id>
+struct ZC {
+    static inline Counts c{};
+};
+struct ZBase {
+    int v{0}, copies{0}, moves{0}, assigns{0};
+    auto str() const -> std::string { return std::to_string(v) + "/c" + std::to_string(copies) + "/m" + std::to_string(moves) + "/a" + std::to_string(assigns); }
+};
+// Z0: user-provided copy / move constructor, defaulted (trivial) assignment, trivial destructor
+struct Z0 : ZBase {
+    explicit Z0(int x) noexcept : ZBase{x} { }
+    Z0(Z0 const& o) noexcept : ZBase{o.v, o.copies + 1, o.moves, o.assigns} { ++ZC<0>::c.cc; }
+    Z0(Z0&& o) noexcept : ZBase{o.v, o.copies, o.moves + 1, o.assigns} { ++ZC<0>::c.mc; }
+    auto operator=(Z0 const&) noexcept -> Z0& = default;
+    auto operator=(Z0&&) noexcept -> Z0&      = default;
+};
+// Z1: defaulted (trivial) constructors, user-provided copy / move assignment, trivial destructor
+struct Z1 : ZBase {
+    explicit Z1(int x) noexcept : ZBase{x} { }
+    Z1(Z1 const&) noexcept = default;
+    Z1(Z1&&) noexcept      = default;
+    auto operator=(Z1 const& o) noexcept -> Z1&
+    {
+        v = o.v, copies = o.copies, moves = o.moves, assigns = o.assigns + 1;
+        ++ZC<1>::c.ca;
+        return *this;
+    }
+    auto operator=(Z1&& o) noexcept -> Z1&
+    {
+        v = o.v, copies = o.copies, moves = o.moves, assigns = o.assigns + 100;
+        ++ZC<1>::c.ma;
+        return *this;
+    }
+};
+// Z2: resource handle - user-provided constructor / copy constructor / destructor (live count), defaulted copy assignment, no moves
+struct Z2 : ZBase {
+    explicit Z2(int x) noexcept : ZBase{x} { ++ZC<2>::c.live; }
+    Z2(Z2 const& o) noexcept : ZBase{o.v, o.copies + 1, o.moves, o.assigns} { ++ZC<2>::c.cc, ++ZC<2>::c.live; }
+    auto operator=(Z2 const&) noexcept -> Z2& = default;
+    ~Z2() { ++ZC<2>::c.d, --ZC<2>::c.live; }
+};
+// Z4: move-only (deleted copies), user-provided moves, trivial destructor
+struct Z4 : ZBase {
+    explicit Z4(int x) noexcept : ZBase{x} { }
+    Z4(Z4 const&) = delete;
+    Z4(Z4&& o) noexcept : ZBase{o.v, o.copies, o.moves + 1, o.assigns} { ++ZC<4>::c.mc; }
+    auto operator=(Z4 const&) -> Z4& = delete;
+    auto operator=(Z4&& o) noexcept -> Z4&
+    {
+        v = o.v, copies = o.copies, moves = o.moves, assigns = o.assigns + 100;
+        ++ZC<4>::c.ma;
+        return *this;
+    }
+};
+// Z6: everything user-provided
+struct Z6 : ZBase {
+    explicit Z6(int x) noexcept : ZBase{x} { ++ZC<6>::c.live; }
+    Z6(Z6 const& o) noexcept : ZBase{o.v, o.copies + 1, o.moves, o.assigns} { ++ZC<6>::c.cc, ++ZC<6>::c.live; }
+    Z6(Z6&& o) noexcept : ZBase{o.v, o.copies, o.moves + 1, o.assigns} { ++ZC<6>::c.mc, ++ZC<6>::c.live; }
+    auto operator=(Z6 const& o) noexcept -> Z6&
+    {
+        v = o.v, copies = o.copies, moves = o.moves, assigns = o.assigns + 1;
+        ++ZC<6>::c.ca;
+        return *this;
+    }
+    auto operator=(Z6&& o) noexcept -> Z6&
+    {
+        v = o.v, copies = o.copies, moves = o.moves, assigns = o.assigns + 100;
+        ++ZC<6>::c.ma;
+        return *this;
+    }
+    ~Z6() { ++ZC<6>::c.d, --ZC<6>::c.live; }
+};
+
+enum ZKind : std::uint32_t { ZK_VARIANT, ZK_OPTIONAL, ZK_EXPECTED, ZK_N };
+char const* const zkind_names[] = {"variant<int,Z>", "optional<Z>", "expected<Z,Err>"};
+char const* const zoo_names[]   = {"Z0 user ctors + trivial assignment", "Z1 trivial ctors + user assignment", "Z2 handle: user copy ctor + dtor, defaulted assignment, no moves", "Z4 move-only", "Z6 all user-provided"};
+char const* const zop_names[]   = {"copy-construct", "move-construct", "copy-assign", "move-assign"};
+
+struct Zoo {
+    static constexpr std::uint32_t NZ = 5, NB = 16;
+    // one scenario: returns a transcript of states and call counts
+    template <int Id, typename Mk, typename Show>
+    static auto scenario(std::uint32_t b, Mk mk, Show show) -> std::string
+    {
+        using C       = decltype(mk(true));
+        auto zop      = (b / 4) % 4;
+        bool from_has = (b & 2U) != 0, to_has = (b & 1U) != 0;
+        ZC<Id>::c     = Counts{};
+        std::string t;
+        {
+            C src = mk(from_has);
+            t += "src built [" + ZC<Id>::c.str() + "] ";
+            // one shared tail for the four operations (keeps the instantiated code small)
+            Counts c0{};
+            auto fin = [&](C const& dst) { t += "dst=" + show(dst) + " src=" + show(std::as_const(src)) + " during [" + ZC<Id>::c.minus(c0).str() + "]"; };
+            switch (zop) {
+            case 0:
+                if constexpr (std::is_copy_constructible_v<C>) {
+                    c0 = ZC<Id>::c;
+                    C dst(std::as_const(src));
+                    fin(dst);
+                } else {
+                    t += "not copy constructible";
+                }
+                break;
+            case 1:
+                if constexpr (std::is_move_constructible_v<C>) {
+                    c0 = ZC<Id>::c;
+                    C dst(std::move(src));
+                    fin(dst);
+                } else {
+                    t += "not move constructible";
+                }
+                break;
+            case 2:
+                if constexpr (std::is_copy_assignable_v<C>) {
+                    C dst = mk(to_has);
+                    c0    = ZC<Id>::c;
+                    dst   = std::as_const(src);
+                    fin(dst);
+                } else {
+                    t += "not copy assignable";
+                }
+                break;
+            default:
+                if constexpr (std::is_move_assignable_v<C>) {
+                    C dst = mk(to_has);
+                    c0    = ZC<Id>::c;
+                    dst   = std::move(src);
+                    fin(dst);
+                } else {
+                    t += "not move assignable";
+                }
+                break;
+            }
+        }
+        return t + " after destruction [" + ZC<Id>::c.str() + "]";
+    }
+    // WithExpected: also run the expected<Z,Err> container (only for three element types: compile time)
+    template <int Id, typename Z, bool WithExpected>
+    static auto both(std::uint32_t kind, std::uint32_t b, std::string& te, std::string& ts) -> void
+    {
+        switch (kind % ZK_N) {
+        case ZK_VARIANT: {
+            auto eshow = [](auto const& x) { return x.index() == 1 ? "Z " + etl::get_if<1>(&x)->str() : std::string("int"); };
+            auto sshow = [](auto const& x) { return x.index() == 1 ? "Z " + std::get_if<1>(&x)->str() : std::string("int"); };
+            te = scenario<Id>(b, [](bool z) { return z ? etl::variant<int, Z>(etl::in_place_index<1>, 5) : etl::variant<int, Z>(etl::in_place_index<0>, 7); }, eshow);
+            ts = scenario<Id>(b, [](bool z) { return z ? std::variant<int, Z>(std::in_place_index<1>, 5) : std::variant<int, Z>(std::in_place_index<0>, 7); }, sshow);
+            break;
+        }
+        case ZK_OPTIONAL: {
+            auto show = [](auto const& x) { return x.has_value() ? "Z " + (*x).str() : std::string("empty"); };
+            te = scenario<Id>(b, [](bool z) { return z ? etl::optional<Z>(etl::in_place, 5) : etl::optional<Z>(); }, show);
+            ts = scenario<Id>(b, [](bool z) { return z ? std::optional<Z>(std::in_place, 5) : std::optional<Z>(); }, show);
+            break;
+        }
+        default: {
+            if constexpr (WithExpected) {
+                te = scenario<Id>(b, [](bool z) { return z ? etl::expected<Z, Err>(etl::in_place, 5) : etl::expected<Z, Err>(etl::unexpect, 3); },
+                    [](auto const& x) { return x.has_value() ? "Z " + (*x).str() : "error " + std::to_string(x.error().code); });
+                ts = scenario<Id>(b, [](bool z) { return z ? std::variant<Z, Err>(std::in_place_index<0>, 5) : std::variant<Z, Err>(std::in_place_index<1>, 3); },
+                    [](auto const& x) { return x.index() == 0 ? "Z " + std::get_if<0>(&x)->str() : "error " + std::to_string(std::get_if<1>(&x)->code); });
+            }
+            break;
+        }
+        }
+    }
+    static auto run(OpsCase const& k, int stats) -> std::string
+    {
+        for (auto const& op : k.ops) {
+            std::string te, ts;
+            auto kind = op.code % ZK_N;
+            switch (op.a % NZ) {
+            case 0: both<0, Z0, true>(kind, op.b, te, ts); break;
+            case 1: both<1, Z1, true>(kind, op.b, te, ts); break;
+            case 2: both<2, Z2, false>(kind, op.b, te, ts); break;
+            case 3: both<4, Z4, false>(kind, op.b, te, ts); break;
+            default: both<6, Z6, true>(kind, op.b, te, ts); break;
+            }
+            if (stats > 0 && ((op.b & 1U) != 0) != ((op.b & 2U) != 0)) { vf::nontrivial_count(); } // index-changing
+            if (te != ts) {
+                return std::string(zop_names[(op.b / 4) % 4]) + " of " + zkind_names[kind] + " with " + zoo_names[op.a % NZ] + ", source " + ((op.b & 2U) != 0 ? "holds Z" : "holds the other state") + ", destination "
+                     + ((op.b & 1U) != 0 ? "holds Z" : "holds the other state") + ": etl {" + te + "} std {" + ts + "}";
+            }
+        }
+        return "";
+    }
+};
+
 // ------------------------------------------------------------------ configuration table
 struct Config {
     char const* name;
     std::string (*run)(OpsCase const&, int);
+    bool stateless{false}; // one op = one self-contained scenario (enumerated completely, no histories)
 };
 // One source, several executables: -DC07_ONLY=<i> builds only configuration i (the registry lists one harness per
 // configuration so that they compile in parallel); configuration ids in case strings are the same in every build.
@@ -486,10 +698,16 @@ struct Config {
 #else
     #define C07_RUN2 nullptr
 #endif
+#if !defined(C07_ONLY) || C07_ONLY == 3
+    #define C07_RUN3 &Zoo::run
+#else
+    #define C07_RUN3 nullptr
+#endif
 Config const configs[] = {
     {"expected<int,Err>", C07_RUN0},
     {"expected<NonTriv,MErr>", C07_RUN1}, // MErr: error type with a visible (payload-resetting) move constructor
     {"expected<NonTriv,NonTriv>", C07_RUN2}, // T == E: has_value() can only follow the index, never the type
+    {"special-member matrix of the element type (variant / optional / expected)", C07_RUN3, true},
 };
 constexpr std::uint32_t nconfigs = sizeof(configs) / sizeof(configs[0]);
 
@@ -506,7 +724,7 @@ auto describe(OpsCase const& k) -> std::string
     auto const& cfg = configs[k.cfg % nconfigs];
     std::string s   = std::string(cfg.name) + " :";
     for (auto const& o : k.ops) {
-        s += " " + std::string((o.c & 1U) != 0 ? "B." : "A.") + code_names[o.code % NCODES] + "[a " + std::to_string(o.a) + ",b " + std::to_string(o.b) + ",v " + std::to_string((o.c >> 1) % NVAL) + "]";
+        s += " " + std::string((o.c & 1U) != 0 ? "B." : "A.") + (cfg.stateless ? zkind_names[o.code % ZK_N] : code_names[o.code % NCODES]) + "[a " + std::to_string(o.a) + ",b " + std::to_string(o.b) + ",v " + std::to_string((o.c >> 1) % NVAL) + "]";
     }
     return s;
 }
@@ -557,6 +775,24 @@ void vf_run(vf::Ctx& c)
         std::uint64_t n = 0;
         for (std::uint32_t ci = 0; ci < nconfigs; ++ci) {
             if (configs[ci].run == nullptr) { continue; }
+            if (configs[ci].stateless) {
+                // every (container kind, element type, operation, source state, destination state)
+                for (std::uint32_t kind = 0; kind < ZK_N; ++kind) {
+                    for (std::uint32_t a = 0; a < Zoo::NZ; ++a) {
+                        for (std::uint32_t b = 0; b < Zoo::NB; ++b) {
+                            if (!c.mine(n++)) { continue; }
+                            OpsCase k;
+                            k.cfg = ci;
+                            k.ops.push_back(RawOp{kind, a, b, 0});
+                            vf::Flight<OpsCase> fl("enum_special_members", k);
+                            vf::eval("enum_special_members");
+                            auto d = run_case(k, 1);
+                            if (!d.empty()) { vf::mismatch("enum_special_members", k, d); }
+                        }
+                    }
+                }
+                continue;
+            }
             std::vector<RawOp> ops, queries;
             for (std::uint32_t code = 0; code < FIRST_QUERY; ++code) {
                 for (auto const& o : shapes(code)) { ops.push_back(o); }
@@ -625,7 +861,7 @@ void vf_run(vf::Ctx& c)
     // E1: random histories of <= 25 ops, every configuration
     int per_cfg = (c.thorough() ? 50000 : 3000) / std::max(1, c.nshards) + 1; // per type over all shards: quick 3k, thorough 50k
     for (std::uint32_t ci = 0; ci < nconfigs; ++ci) {
-        if (configs[ci].run == nullptr) { continue; }
+        if (configs[ci].run == nullptr || configs[ci].stateless) { continue; }
         auto gen = rc::gen::map(vf::gen_history(1, NCODES, 25), [ci](OpsCase k) {
             k.cfg = ci;
             return k;
